@@ -149,6 +149,21 @@ let run_line lineno line =
       (join face t.Model.tfaces) (join ni k.Model.offsets) (join ni k.Model.counts) (join ni k.Model.connections)
       (join ni t.Model.tstored) (String.concat "," nb) (String.concat "," fidx)
       (join face (Model.face_integrals cs)) (join face (Model.face_integrals_sym active cs)) (join ni (Model.cell_integrals cs))
+  | "faces" :: np :: nv :: rest ->
+    (* faces nplanes nv (d0 d1 d2)* : with_faces / sort_face_vertices of the model on the given duals *)
+    let ios = int_of_string in
+    let np = ios np and nv = ios nv in
+    let rec verts k l acc = if k = 0 then List.rev acc else
+        (match l with a :: b :: c :: tl ->
+           verts (k - 1) tl ({ Model.vd = ((nat_of_int (ios a), nat_of_int (ios b)), nat_of_int (ios c)); Model.vloc = Model.hdefault } :: acc)
+                    | _ -> failwith "verts") in
+    let vs = verts nv rest [] in
+    let planes = List.init np (fun _ -> Model.plane_default) in
+    let c = { Model.cplanes = planes; Model.cverts = vs; Model.ccycle = Model.cyc_new (nat_of_int np) } in
+    let fs = Model.faces_of c in
+    Printf.printf "%d [%s]\n" lineno
+      (join (fun (p, o) -> Printf.sprintf "[%d,%s]" (int_of_nat p)
+                (match o with Some l -> "[" ^ join (fun i -> string_of_int (int_of_nat i)) l ^ "]" | None -> "null")) fs)
   | "clipcomb" :: np :: pidx :: nv :: rest ->
     (* clipcomb nplanes p_idx nv (d0 d1 d2 removed)*  -> combinatorial clip on the given array *)
     let ios = int_of_string in
